@@ -23,8 +23,12 @@ pub fn build_tx_world(rng: &mut StdRng, pow: &str, main_len: usize, forks: usize
 /// `remine`: probability that a transaction of an abandoned block is mined again on the fork branch (same bytes,
 /// same hash, another block and possibly another position) -- what a real reorganisation does to most of them.
 pub fn build_tx_world_remine(rng: &mut StdRng, pow: &str, main_len: usize, forks: usize, max_depth: usize, max_txs: usize, remine: f64) -> FBuilt {
+    build_tx_world_with(rng, pow, main_len, forks, max_depth, max_txs, remine, gen::default_scripts())
+}
+
+#[allow(clippy::too_many_arguments)]
+pub fn build_tx_world_with(rng: &mut StdRng, pow: &str, main_len: usize, forks: usize, max_depth: usize, max_txs: usize, remine: f64, scripts: Vec<crate::verif::world::WScript>) -> FBuilt {
     let p = ChainParams { pow: pow.to_owned(), epoch_len: (3, 8), vary_difficulty: true };
-    let scripts = gen::default_scripts();
     let mut chain = SimChain::new(pow, &scripts);
     let mut tg = TxGen::new(scripts.len(), max_txs);
     tg.remine = remine;
@@ -166,6 +170,13 @@ pub fn drain_adv(sim: &mut Sim, env: &mut Env, rng: &mut StdRng, interval: u64, 
                         }
                     }
                     env.deliver_block(sim, i, m, "true");
+                    // ... and, now and then, the same header AGAIN with another body after the genuine block has
+                    // arrived (while the other blocks of the record are still on their way)
+                    if let Some(bid) = bid {
+                        if rng.gen_bool(0.25) {
+                            env.deliver_forged_block(sim, i, bid, rng.gen_range(0..3));
+                        }
+                    }
                 }
             }
         }
